@@ -257,8 +257,9 @@ func (srv *Srv) open(req *SrvReq) {
 }
 
 func (srv *Srv) openPost(req *SrvReq) {
-	if req.Fid != nil {
-		req.Fid.opened = req.Rc != nil && req.Rc.Type == Ropen
+	// a refused or failed open leaves the fid as it was (it may already be open)
+	if req.Fid != nil && req.Rc != nil && req.Rc.Type == Ropen {
+		req.Fid.opened = true
 	}
 }
 
